@@ -81,15 +81,19 @@ const (
 	c35FaultInvalid
 	c35FaultWrongID
 	c35FaultStore // the fetch is answered correctly, but storing the verified TRC fails (DB.InsertTRC error)
+	c35FaultVotes // the answer is an update whose vote structure is malformed (one of c35VoteKinds, rotating)
 	c35NFault
 )
 
-var c35FaultName = [...]string{"none", "fetch-error", "bad-signature", "invalid-successor", "wrong-id", "storage-error"}
+var c35FaultName = [...]string{"none", "fetch-error", "bad-signature", "invalid-successor", "wrong-id", "storage-error", "malformed-votes"}
 
 type c35World struct {
 	legit   map[c35ID]cppki.SignedTRC
 	badsig  map[c35ID]cppki.SignedTRC
 	invalid map[c35ID]cppki.SignedTRC
+	// voteVar: per update, one variant per entry of c35VoteKinds (same order): the vote list / the set of signatures
+	// is malformed, every signature that is present is genuine
+	voteVar map[c35ID][]cppki.SignedTRC
 	// starts: hours after the bubble epoch at which the TRC's validity starts
 	starts map[c35ID]float64
 	byRaw  map[string]string // raw signed TRC -> "B1-S2:legit"
@@ -112,7 +116,7 @@ func c35Epoch() time.Time { return time.Date(2000, 1, 1, 0, 0, 0, 0, time.UTC) }
 
 func c35Build(t *testing.T) (*c35World, error) {
 	w := &c35World{legit: map[c35ID]cppki.SignedTRC{}, badsig: map[c35ID]cppki.SignedTRC{}, invalid: map[c35ID]cppki.SignedTRC{},
-		starts: map[c35ID]float64{}, byRaw: map[string]string{}}
+		starts: map[c35ID]float64{}, byRaw: map[string]string{}, voteVar: map[c35ID][]cppki.SignedTRC{}}
 	e := c35Epoch()
 	cv := cppki.Validity{NotBefore: e.Add(-1000 * time.Hour), NotAfter: e.Add(5000 * time.Hour)}
 	ia := addr.MustParseIA("1-ff00:0:110")
@@ -176,6 +180,7 @@ func c35Build(t *testing.T) (*c35World, error) {
 		return p
 	}
 	var prev *cppki.SignedTRC
+	var prevCerts []*pkigen.Cert
 	for _, s := range steps {
 		signed, err := pkigen.Sign(payload(s), s.signers...)
 		if err != nil {
@@ -213,7 +218,42 @@ func c35Build(t *testing.T) (*c35World, error) {
 				return nil, fmt.Errorf("invalid-successor variant of %v verifies", s.id)
 			}
 			w.invalid[s.id] = iv
+			// vote-structure variants: who votes, how often, and who signs
+			predCerts := prevCerts
+			isVoter := map[*pkigen.Cert]bool{}
+			for _, v := range s.votes {
+				isVoter[predCerts[v]] = true
+			}
+			var extras []*pkigen.Cert // signatures that are not votes: new voters, root acknowledgments
+			for _, c := range s.signers {
+				if !isVoter[c] {
+					extras = append(extras, c)
+				}
+			}
+			for _, kind := range c35VoteKinds {
+				votes := kind.votes(s.votes)
+				if votes == nil { // not applicable to this update
+					w.voteVar[s.id] = append(w.voteVar[s.id], cppki.SignedTRC{})
+					continue
+				}
+				var signers []*pkigen.Cert
+				for i, v := range votes {
+					if v < len(predCerts) && !(kind.unsignedLast && i == len(votes)-1) {
+						signers = append(signers, predCerts[v])
+					}
+				}
+				p := payload(s)
+				p.Votes = votes
+				p.Description += " (votes: " + kind.name + ")"
+				vv, err := pkigen.Sign(p, c35Dedup(append(signers, extras...))...)
+				if err != nil {
+					return nil, fmt.Errorf("signing vote variant %s of %v: %w", kind.name, s.id, err)
+				}
+				w.voteVar[s.id] = append(w.voteVar[s.id], vv)
+				w.byRaw[string(vv.Raw)] = s.id.String() + ":malformed-votes(" + kind.name + ")"
+			}
 		}
+		prevCerts = s.certs
 		cp := signed
 		prev = &cp
 	}
@@ -275,6 +315,58 @@ func c35Build(t *testing.T) (*c35World, error) {
 		}
 	}
 	return w, nil
+}
+
+// c35VoteKind: one way in which the vote list of an update (indices into the predecessor's certificates) or the set
+// of vote signatures is malformed. votes maps the legitimate vote list to the malformed one; every listed voter that
+// exists signs genuinely, except the last one if unsignedLast.
+type c35VoteKind struct {
+	name         string
+	votes        func(legit []int) []int
+	unsignedLast bool
+}
+
+var c35VoteKinds = []c35VoteKind{
+	// one voter alone, listed as often as the legitimate update has votes (>= quorum entries, one signature)
+	{name: "one-voter-repeated", votes: func(l []int) []int {
+		out := make([]int, len(l))
+		for i := range out {
+			out[i] = l[0]
+		}
+		return out
+	}},
+	// the legitimate votes with the last one replaced by a repetition of the first (quorum entries, quorum-1 voters)
+	{name: "last-vote-duplicates-first", votes: func(l []int) []int {
+		out := append([]int{}, l...)
+		out[len(out)-1] = out[0]
+		return out
+	}},
+	{name: "below-quorum", votes: func(l []int) []int { return []int{l[0]} }},
+	{name: "declared-vote-unsigned", votes: func(l []int) []int { return append([]int{}, l...) }, unsignedLast: true},
+	// the last vote is cast with a root certificate (index 6 of every certificate list here)
+	{name: "vote-by-root-certificate", votes: func(l []int) []int {
+		out := append([]int{}, l...)
+		out[len(out)-1] = 6
+		return out
+	}},
+	// a sensitive update voted by regular voters (indices 0..2 sensitive, 3..5 regular). Not applicable to regular
+	// updates: the implementation classifies an update whose first vote is sensitive as a sensitive update and accepts
+	// a sensitive quorum for a change that would only need a regular one.
+	{name: "regular-votes-on-sensitive-update", votes: func(l []int) []int {
+		if l[0] >= 3 {
+			return nil
+		}
+		out := make([]int, len(l))
+		for i, v := range l {
+			out[i] = v + 3
+		}
+		return out
+	}},
+	{name: "vote-index-out-of-range", votes: func(l []int) []int {
+		out := append([]int{}, l...)
+		out[len(out)-1] = 99
+		return out
+	}},
 }
 
 func c35Dedup(cs []*pkigen.Cert) []*pkigen.Cert {
@@ -401,6 +493,14 @@ func (f *c35Fetcher) TRC(_ context.Context, id cppki.TRCID, _ net.Addr) (cppki.S
 	case c35FaultInvalid:
 		if s, ok := f.w.invalid[want]; ok {
 			return s, nil
+		}
+	case c35FaultVotes:
+		if vs := f.w.voteVar[want]; len(vs) > 0 {
+			for i := 0; i < len(vs); i++ {
+				if v := vs[(int(want.serial)+f.faultAt+i)%len(vs)]; len(v.Raw) > 0 {
+					return v, nil
+				}
+			}
 		}
 	case c35FaultWrongID:
 		for _, alt := range []c35ID{c35I(want.base, want.serial+1), c35I(want.base, want.serial-1)} {
@@ -641,7 +741,7 @@ func c35Replay(t *testing.T, r *mc.Run, w *c35World, hist []c35Ev) (canon string
 			}
 			if got != m.canon() {
 				k := "store-differs-from-model:" + ev.class()
-				if strings.Contains(got, ":bad-signature") || strings.Contains(got, ":invalid-successor") || strings.Contains(got, ":unknown") {
+				if strings.Contains(got, ":bad-signature") || strings.Contains(got, ":invalid-successor") || strings.Contains(got, ":malformed-votes") || strings.Contains(got, ":unknown") {
 					k = "unverified-trc-stored:" + ev.class()
 				}
 				fail(k, where(map[string]any{"store": got, "model": m.canon()}))
@@ -805,6 +905,128 @@ func c35LoadMatrix(t *testing.T, r *mc.Run, w *c35World) {
 	r.Extra["load_matrix_cases"] = n
 }
 
+// c35OneFetcher answers every TRC request with one fixed signed TRC.
+type c35OneFetcher struct {
+	answer cppki.SignedTRC
+	calls  []c35ID
+}
+
+func (f *c35OneFetcher) Chains(context.Context, trust.ChainQuery, net.Addr) ([][]*x509.Certificate, error) {
+	return nil, fmt.Errorf("no chains in C35")
+}
+
+func (f *c35OneFetcher) TRC(_ context.Context, id cppki.TRCID, _ net.Addr) (cppki.SignedTRC, error) {
+	f.calls = append(f.calls, c35FromTRC(id))
+	return f.answer, nil
+}
+
+// c35VoteMatrix: flat enumeration, every update of the generated successions x every c35VoteKinds variant. The store
+// holds the legitimate chain of that base up to the predecessor; NotifyTRC(serial of the update) is answered with the
+// variant. It must be refused (error, store unchanged, exactly one fetch), and SignedTRC.Verify(predecessor) - the
+// verification step of the property - must refuse it as well. The legitimate update is the positive control.
+func c35VoteMatrix(t *testing.T, r *mc.Run, w *c35World) {
+	var ids []c35ID
+	for id := range w.voteVar {
+		ids = append(ids, id)
+	}
+	sort.Slice(ids, func(i, j int) bool { return c35Less(ids[i], ids[j]) })
+	n := 0
+	for _, id := range ids {
+		pred := w.legit[c35I(id.base, id.serial-1)]
+		for k := -1; k < len(c35VoteKinds); k++ {
+			name, answer := "legitimate", w.legit[id]
+			if k >= 0 {
+				name, answer = c35VoteKinds[k].name, w.voteVar[id][k]
+				if len(answer.Raw) == 0 {
+					r.Outcome("vote-matrix:" + name + ":not-applicable")
+					continue
+				}
+			}
+			n++
+			det := func(extra map[string]any) map[string]any {
+				extra["update"] = id.String()
+				extra["variant"] = name
+				extra["votes"] = fmt.Sprint(answer.TRC.Votes)
+				extra["signatures"] = len(answer.SignerInfos)
+				extra["predecessor_quorum"] = pred.TRC.Quorum
+				return extra
+			}
+			verr := answer.Verify(&pred.TRC)
+			if k >= 0 && verr == nil {
+				r.Violation("vote-matrix:verify-accepts:"+name, det(map[string]any{"what": "SignedTRC.Verify(predecessor) accepts the update"}))
+			}
+			if k < 0 && verr != nil {
+				r.HarnessError("legitimate %v does not verify: %v", id, verr)
+				return
+			}
+			synctest.Test(t, func(t *testing.T) {
+				d, err := sqlite.New(fmt.Sprintf("c35v-%d", c35DBCtr.Add(1)), &db.SqliteConfig{InMemory: true, MaxOpenReadConns: 2})
+				if err != nil {
+					r.HarnessError("sqlite: %v", err)
+					return
+				}
+				defer d.Close()
+				ctx := context.Background()
+				want := []string{}
+				for ser := id.base; ser < id.serial; ser++ {
+					if _, err := d.InsertTRC(ctx, w.legit[c35I(id.base, ser)]); err != nil {
+						r.HarnessError("seeding the store: %v", err)
+						return
+					}
+					want = append(want, c35I(id.base, ser).String()+":legit")
+				}
+				if k < 0 {
+					want = append(want, id.String()+":legit")
+				}
+				f := &c35OneFetcher{answer: answer}
+				prov := trust.FetchingProvider{DB: d, Recurser: trust.LocalOnlyRecurser{}, Fetcher: f, Router: c34Router{}}
+				var nerr error
+				if pn := mc.Safely(func() {
+					nerr = prov.NotifyTRC(ctx, cppki.TRCID{ISD: 1, Base: scrypto.Version(id.base), Serial: scrypto.Version(id.serial)})
+				}); pn != nil {
+					r.Violation("vote-matrix:panic:"+name, det(map[string]any{"panic": fmt.Sprint(pn)}))
+					return
+				}
+				all, err := d.SignedTRCs(ctx, truststorage.TRCsQuery{})
+				if err != nil {
+					r.HarnessError("dumping the store: %v", err)
+					return
+				}
+				var got []string
+				for _, s := range all {
+					nm, ok := w.byRaw[string(s.Raw)]
+					if !ok {
+						nm = s.TRC.ID.String() + ":unknown"
+					}
+					got = append(got, nm)
+				}
+				sort.Strings(got)
+				sort.Strings(want)
+				if strings.Join(got, ",") != strings.Join(want, ",") {
+					key := "vote-matrix:store-differs-from-model:" + name
+					if k >= 0 {
+						key = "vote-matrix:unverified-trc-stored:" + name
+					}
+					r.Violation(key, det(map[string]any{"store": got, "model": want, "notify_error": fmt.Sprint(nerr)}))
+				}
+				if (nerr != nil) != (k >= 0) {
+					r.Violation("vote-matrix:result:"+name, det(map[string]any{"notify_error": fmt.Sprint(nerr), "expected_error": k >= 0}))
+				}
+				if fmt.Sprint(f.calls) != fmt.Sprint([]c35ID{id}) {
+					r.Violation("vote-matrix:fetch-sequence:"+name, det(map[string]any{"fetched": fmt.Sprint(f.calls)}))
+				}
+				if k < 0 {
+					r.Outcome("vote-matrix:legitimate-accepted")
+				} else {
+					r.Outcome("vote-matrix:" + name + ":refused")
+				}
+			})
+		}
+	}
+	r.CaseBulk(int64(n), int64(n))
+	r.Extra["vote_matrix_cases"] = n
+}
+
 func TestC35(t *testing.T) {
 	r := mc.NewRun(t, "C35", mc.ModelChecking)
 	w, err := c35Build(t)
@@ -812,15 +1034,18 @@ func TestC35(t *testing.T) {
 		t.Fatalf("HARNESS-ERROR building the TRC world: %v", err)
 	}
 	c35LoadMatrix(t, r, w)
+	c35VoteMatrix(t, r, w)
 	menu := c35Menu()
 	depth := mc.Pick(5, 6)
 	r.Rule = fmt.Sprintf("breadth-first search over event histories up to length %d from the empty store; %d events: NotifyTRC with serial "+
 		"latest-1/latest/+1/+2/+3 (same base; other base with 0/+1/+2), for +k every position 1..k of a faulty step x {fetch error, bad vote "+
-		"signature, properly signed non-successor, TRC with another ID, storage error = InsertTRC of the verified TRC fails (wrapping DB)}; LoadTRCs from 4 directories (S1 | S2 + future S4 | other-base B3-S3 + future S5 | sensitive update B3-S5 + second trust-reset base B5-S5 + base TRC of unknown ISD 2, all three starting 12 h after the initial clock); "+
+		"signature, properly signed non-successor, TRC with another ID, storage error = InsertTRC of the verified TRC fails (wrapping DB), update with a malformed vote structure (variant of the vote matrix, rotating with serial and position)}; LoadTRCs from 4 directories (S1 | S2 + future S4 | other-base B3-S3 + future S5 | sensitive update B3-S5 + second trust-reset base B5-S5 + base TRC of unknown ISD 2, all three starting 12 h after the initial clock); "+
 		"Advance(12h) at most twice. A state is the sorted list of stored TRCs (legit / corrupted variant by bytes) plus the clock; distinct key = state; "+
 		"each transition is one full replay on a fresh sqlite DB compared step by step with the reference model. Before the search a flat matrix: directory with a TRC of kind "+
 		"{base of an unknown ISD, trust-reset base with a higher base number, regular update, sensitive update} (each alone, and three kinds together) x validity start epoch-1h/epoch/epoch+1s/epoch+12h x clock epoch / "+
-		"epoch+12h x {LoadTRCs, one TRCLoader}, loaded twice 12 h apart into a store holding B1-S1..S3", depth, len(menu))
+		"epoch+12h x {LoadTRCs, one TRCLoader}, loaded twice 12 h apart into a store holding B1-S1..S3. And a flat vote matrix: every update x {legitimate, one voter repeated quorum times with one signature, "+
+		"last vote duplicating the first, below quorum, declared vote unsigned, vote by a root certificate, regular votes on a sensitive update, vote index out of range} via NotifyTRC on a store "+
+		"holding the chain up to the predecessor, and via SignedTRC.Verify(predecessor)", depth, len(menu))
 	st := mc.BFS(mc.Space[c35Ev]{
 		Replay: func(h []c35Ev) (string, *mc.Viol) { return c35Replay(t, r, w, h) },
 		Events: func(h []c35Ev) []c35Ev {
